@@ -227,3 +227,96 @@ def h2_goaway(at: int, rel: int, d0: int, c0: int, retries: int, bb: bool) -> No
         # after GOAWAY no new stream is opened on that connection
         P.check(not pol.opened_after_reading_goaway, "no-new-stream-once-goaway-has-been-read",
                 lambda: f"{sig}:stream-after-goaway")
+
+
+class _ResetAt:
+    """First connection: at the `at`-th server-side event of the scripted request (HEADERS, DATA frames, END) the
+    stream is reset with `code`; other connections answer normally."""
+
+    def __init__(self, at: int, code: int) -> None:
+        self.at, self.code = at, code
+        self.n = 0
+        self.srv: H2Server | None = None
+        self.done = False
+
+    def _tick(self, srv: H2Server, sid: int) -> bool:
+        if srv.path(sid) == b"/warm":
+            return False
+        if self.srv is None:
+            self.srv = srv
+        if srv is not self.srv:
+            return False
+        if not self.done and self.n == self.at:
+            self.done = True
+            srv.conn.reset_stream(sid, error_code=self.code)
+        self.n += 1
+        return True
+
+    def on_headers(self, srv: H2Server, sid: int) -> None:
+        self._tick(srv, sid)
+
+    def on_data(self, srv: H2Server, ev: typing.Any) -> None:
+        if not self._tick(srv, ev.stream_id) or self.done:
+            try:
+                srv.conn.acknowledge_received_data(ev.flow_controlled_length, ev.stream_id)
+            except Exception:  # noqa: BLE001 - stream already reset
+                pass
+
+    def on_request(self, srv: H2Server, sid: int) -> None:
+        if not self._tick(srv, sid):
+            srv.respond(sid)
+        elif not self.done or srv.conn.streams.get(sid) is None:
+            pass
+
+
+RESET_CODES = (1, 2, 7, 8, 11)  # PROTOCOL_ERROR, INTERNAL_ERROR, REFUSED_STREAM, CANCEL, ENHANCE_YOUR_CALM
+
+
+@harness(
+    "C14", "h2_reset",
+    quick=[{"flavour": fl} for fl in ("sync", "async")],
+    example=dict(at=1, code=2, retries=1, bb=True),
+    require=("reset-seen",),
+    timeout={"quick": 200, "thorough": 400},
+    symbolic="the server-side event of the request (HEADERS, first DATA frame, ... END) at which the stream is reset; the error code from {PROTOCOL_ERROR, INTERNAL_ERROR, REFUSED_STREAM, CANCEL, ENHANCE_YOUR_CALM}; retries in 0..1; body as bytes or as a 3-chunk iterator",
+    bounds="one POST after a warm-up request on one HTTP/2 connection, max_connections=2",
+    outside="resets after the response head has been delivered (C02/C12)",
+    stubs=("strict h2 server model",),
+)
+def h2_reset(at: int, code: int, retries: int, bb: bool) -> None:
+    """
+    pre: 0 <= at <= 4 and 0 <= code <= 4 and 0 <= retries <= 1
+    post: _
+    """
+    a, c, r, as_bytes = ladder(at, 0, 4), RESET_CODES[ladder(code, 0, 4)], ladder(retries, 0, 1), bool(bb)
+    with concrete(a, c, r, as_bytes):
+        is_async = shard("flavour", "sync") == "async"
+        pol = _ResetAt(a, c)
+        su = Setup("h2prior", is_async, max_connections=2, h2_policy=pol, retries=r)
+        w = su.api.request(su.pool, "GET", su.url("warm"), extensions={"timeout": {"pool": 0, "read": 50}})
+        if not P.check(w.ok, "warm-up", "once:h2rst:warmup"):
+            return
+        if as_bytes:
+            body: typing.Any = b"xyz"
+        elif is_async:
+            async def agen() -> typing.AsyncIterator[bytes]:
+                for p in (b"x", b"y", b"z"):
+                    yield p
+
+            body = agen()
+        else:
+            body = iter((b"x", b"y", b"z"))
+        o = su.api.request(su.pool, "POST", su.url(TOK.decode()), content=body,
+                           extensions={"timeout": {"pool": 0, "read": 5, "write": 5, "connect": 5}})
+        heads = _heads_seen(su, TOK)
+        sig = f"once:h2rst:code{c}"
+        P.note(at=a, code=c, outcome=o.kind(), heads=heads, reset=pol.done)
+        P.reached()
+        if pol.done:
+            P.cover("reset-seen")
+        # request bytes were written to the first connection: a reset - whatever its code - is not one of the two
+        # cases in which the server provably did not process the request
+        P.check(len(heads) <= 1, "request-bytes-written-to-at-most-one-connection", lambda: f"{sig}:sent-{len(heads)}-times")
+        if pol.done:
+            P.check(not o.ok, "failure-after-request-bytes-were-written-is-reported", lambda: f"{sig}:{o.kind()}")
+            P.check(o.documented(), "failure-reported-with-documented-type", lambda: f"{sig}:{o.kind()}", prop="C15")
